@@ -382,6 +382,16 @@ fn eval_inner(bytes: &[u8], nwk: &[u8; 16], app: &[u8; 16], fcnt: u32, root: Opt
         (PhyPayload::JoinAccept(_), Parsed::JoinAccept { .. }) => {
             // here `nwk` plays the role of the AppKey
             let (plain, want) = refcodec::decode_join_accept(bytes, nwk).unwrap();
+            // the network-side crypto object decodes to the same verdict and bytes as the device-side one
+            {
+                let mut b1 = bytes.to_vec();
+                let mut b2 = bytes.to_vec();
+                let r1 = DecryptedJoinAcceptPayload::check_mic_and_decrypt_in_place(&mut b1, &DefaultCrypto::new(&AES128(*nwk))).map(|d| d.as_bytes().to_vec());
+                let r2 = DecryptedJoinAcceptPayload::check_mic_and_decrypt_in_place(&mut b2, &lorawan::default_crypto::DefaultNetworkCrypto::new(&AES128(*nwk))).map(|d| d.as_bytes().to_vec());
+                if r1.is_ok() != r2.is_ok() || (r1.is_ok() && r1.as_ref().ok() != r2.as_ref().ok()) {
+                    v.push((format!("C02|joinacc-crypto-objects-disagree|{mc}"), format!("device-side {:?} / network-side {:?} on {}", r1.map(|x| hex(&x)), r2.map(|x| hex(&x)), hex(bytes))));
+                }
+            }
             let mut buf = bytes.to_vec();
             let res = DecryptedJoinAcceptPayload::check_mic_and_decrypt_in_place(&mut buf, &DefaultCrypto::new(&AES128(*nwk)));
             match res {
@@ -592,7 +602,7 @@ fn roots(th: bool) -> Vec<Root> {
         }
     }
     // JoinAccept roots (AppKey = KEYS[nwk]) and a JoinRequest root
-    for (i, cf) in [None, Some([0x18, 0x4f, 0x84, 0xe8, 0x56, 0x84, 0xb8, 0x5e, 0x84, 0x88, 0x66, 0x84, 0x58, 0x6e, 0x84, 0]), Some([0, 0xff, 0, 0, 0, 0, 0, 0, 2, 0, 0, 0, 0, 0, 0, 1]), Some([9; 16])]
+    for (i, cf) in [None, Some([0x18, 0x4f, 0x84, 0xe8, 0x56, 0x84, 0xb8, 0x5e, 0x84, 0x88, 0x66, 0x84, 0x58, 0x6e, 0x84, 0]), Some([0, 0xff, 0, 0, 0, 0, 0, 0, 2, 0, 0, 0, 0, 0, 0, 1]), Some([9; 16]), Some([1, 2, 3, 4, 5, 6, 7, 8, 9, 0xAA, 0xBB, 0xCC, 0xDD, 0xEE, 0xFF, 1]), Some([0, 0, 0, 0, 0, 0, 0, 0, 0, 0, 0, 0, 0, 0, 1, 1])]
         .into_iter()
         .enumerate()
     {
